@@ -1,7 +1,7 @@
 (* C12 -- a program that assembles without compression also assembles with it.  Statements only (PARTIAL: see below). *)
 From Coq Require Import ZArith List String.
 From BB Require Import Base.PyBase Gen.Encoders Gen.Criteria Spec.RV32 Spec.RVC Spec.Operands Spec.Legal
-  Model.Items Model.Encode Model.Passes Proofs.Layout Proofs.Rules Proofs.RulesMain Proofs.Stable Proofs.Examples.
+  Model.Items Model.Encode Model.Passes Proofs.Layout Proofs.Rules Proofs.RulesMain Proofs.Stable Proofs.Examples Proofs.Monotone.
 Import ListNotations.
 Open Scope Z_scope.
 
@@ -24,6 +24,21 @@ Theorem C12_refuted_label_arithmetic :
   (exists r, assemble_items ex13 [] [] false = Done r) /\ assemble_items ex13 [] [] true = Fail (PAsm (exL 3)).
 Proof. split. exact ex13_uncompressed_ok. exact ex13_compressed_fails. Qed.
 Print Assumptions C12_refuted_label_arithmetic.
+
+(* K1 NEEDS the align.  In a program without align directives (assembled with no labels handed in, below 2 GiB) compression
+   never moves two labels APART: for any two labels of the program the distance with -c is at most the distance without, in the
+   same direction -- so a transfer that stands at a label and is in range of another label without -c stays in range with -c.
+   (Two-run argument of C20: Proofs/Monotone.v labels_never_apart over the pairing of the two layouts.) *)
+Theorem C12_no_align_labels_never_apart :
+  forall its consts0 rU rC,
+    nonneg its -> total its < 2 ^ 31 -> Monotone.no_align its = true ->
+    assemble_items its consts0 [] false = Done rU -> assemble_items its consts0 [] true = Done rC ->
+    forall L1 L2 a1 a2 b1 b2, In L1 (gnames its) -> In L2 (gnames its) ->
+      assoc_str L1 (r_labels rU) = Some a1 -> assoc_str L2 (r_labels rU) = Some a2 ->
+      assoc_str L1 (r_labels rC) = Some b1 -> assoc_str L2 (r_labels rC) = Some b2 ->
+      Z.abs (b2 - b1) <= Z.abs (a2 - a1) /\ (a1 <= a2 -> b1 <= b2 \/ a1 = a2).
+Proof. exact Monotone.compression_labels_never_apart. Qed.
+Print Assumptions C12_no_align_labels_never_apart.
 
 (* What IS proved.  The compression pass cannot introduce an encoding failure on a settled immediate: whenever a rule is selected the
    generated c.* encoder ACCEPTS the operands the construction row builds (for every register spelling and every
